@@ -55,7 +55,9 @@ fn req_with_prof(cmd: &str, t: &T, p: &[Named; 2]) -> String {
 fn scale_of(t: &T) -> f64 {
     let mut v = Vec::new();
     t.payoffs(&mut v);
-    v.iter().fold(1.0f64, |a, b| a.max(b.abs()))
+    // the game's own unit (no floor at one: a game whose payoffs are of size 1e-24 is compared at 1e-24)
+    let m = v.iter().fold(0.0f64, |a, b| a.max(b.abs()));
+    if m > 0.0 { m } else { 1.0 }
 }
 
 // ---------------------------------------------------------------------------------------------
@@ -181,6 +183,23 @@ pub fn c01(ctx: &mut Ctx) -> String {
             break;
         }
         let (t, fam) = gen_game(&mut ctx.rng, i, if ctx.thorough { 3000 } else { 1200 });
+        // now and then the same game in other units (exact powers of two): a regret of 1e-24 in a
+        // game whose payoffs are of size 1e-24 is a regret, not rounding noise
+        let t = match ctx.rng.below(12) {
+            0 => {
+                ctx.stat("payoff_units_2^-80");
+                t.map_payoffs(&|p| p * 2f64.powi(-80))
+            }
+            1 => {
+                ctx.stat("payoff_units_2^-1000");
+                t.map_payoffs(&|p| p * 2f64.powi(-1000))
+            }
+            2 => {
+                ctx.stat("payoff_units_2^60");
+                t.map_payoffs(&|p| p * 2f64.powi(60))
+            }
+            _ => t,
+        };
         ctx.stat(&format!("family_{}", fam));
         let kind = pick_prof_kind(&mut ctx.rng);
         ctx.stat(&format!("profile_{:?}", kind));
@@ -975,6 +994,8 @@ fn gen_candidate(rng: &mut Rng, t: &T) -> [Named; 2] {
                             0.0,
                             5e-324,
                             1e308,
+                            f64::MAX,
+                            f64::MIN_POSITIVE,
                             f64::NAN,
                             f64::INFINITY,
                             f64::NEG_INFINITY,
